@@ -27,6 +27,7 @@ REPO = os.environ.get("VERIF_REPO", "/repo")
 WORK = os.environ.get("VERIF_WORK", os.path.join(ROOT, ".work"))
 COQ = os.path.join(ROOT, "coq")
 LOGICAL = "IV"
+COQ_MEM_KB = int(os.environ.get("VERIF_COQ_MEM_KB", "12000000"))
 
 GOENV = dict(os.environ)
 GOENV.update({
@@ -223,11 +224,13 @@ def coq_project():
             raise RuntimeError("coq_makefile failed: " + o)
 
 
-def coq_make(targets, timeout=3000, jobs=16):
+def coq_make(targets, timeout=1500, jobs=16):
+    """make under the shared lock, with a memory cap per coqc (a proof that blows up must fail
+    fast instead of starving every other check)."""
     with Lock("coq"):
         coq_project()
-        cmd = ["make", "-k", "-j%d" % jobs] + targets
-        rc, o = sh(cmd, cwd=COQ, timeout=timeout)
+        cmd = "ulimit -v %d; exec make -k -j%d %s" % (COQ_MEM_KB, jobs, " ".join(targets))
+        rc, o = sh(["bash", "-c", cmd], cwd=COQ, timeout=timeout)
     return rc, o
 
 
@@ -241,7 +244,7 @@ def props_files(pid):
 def check_one_prop(rel):
     """Re-check one Props file from scratch; returns dict(name, ok, assumptions, out)."""
     name = os.path.basename(rel)[:-2]
-    rc, o = sh(["coqc", "-Q", ".", LOGICAL, "-w", "-notation-overridden,-deprecated-hint-without-locality", rel], cwd=COQ, timeout=600)
+    rc, o = sh(["bash", "-c", "ulimit -v %d; exec coqc -Q . %s -w -notation-overridden,-deprecated-hint-without-locality %s" % (COQ_MEM_KB, LOGICAL, rel)], cwd=COQ, timeout=600)
     res = {"name": name, "file": rel, "ok": rc == 0, "out": o[-1500:], "axioms": []}
     if rc == 0:
         if "Print Assumptions" not in open(os.path.join(COQ, rel)).read():
